@@ -29,9 +29,11 @@ LEVEL_TEXT = ('static analysis: (D1) each function registered in tabio.READERS /
               'claimed format as other tools write them (VCF with / without meta lines, GFF with pragma or after a comment, interval list with @ '
               'header, text, tab, BED after track / browser / comment / blank lines) names that format; the text reader keeps a name with commas,'
               " dots and dashes whole; Every writer is also run on three rows whose index labels are 5, 2, 9: each output line holds one row's "
-              'chromosome, start + base and end; the tab writer hands every column to the CSV formatter unchanged. (CLI) `import-seg` applies no '
-              'chromosome mapping unless -c is given and passes prefix / log10 switch / one output per sample. Does not decide the chromosome '
-              'order of arbitrary names beyond those classes, regex coverage, or byte-identical rewrite.')
+              'chromosome, start + base and end; the tab writer hands every column to the CSV formatter unchanged. Every writer is also run on a '
+              "row whose start is literally 0 (written with start 0 + base); D3c has six- and twelve-column BEDs whose first name is '.', '-' or "
+              "'+' (still BED, not an interval list). (CLI) `import-seg` applies no chromosome mapping unless -c is given and passes prefix / "
+              'log10 switch / one output per sample. Does not decide the chromosome order of arbitrary names beyond those classes, regex '
+              'coverage, or byte-identical rewrite.')
 TECHNIQUE = ('abstract interpretation of reader/writer bodies with symbolic coordinates (offset dataflow to the sink column); dominance; '
              "registry agreement; typed-frame interpretation of the constructor's dtype coercion")
 
